@@ -40,7 +40,7 @@ Definition op_name (o : op) : string :=
    | OCreateRole x _ _ _ => "create_role" ++ v x | ORemoveRole _ => "remove_role.prop"
    | OAssign x _ _ => "assign" ++ v x | OUnassign x _ _ => "unassign" ++ v x
    | OClaimCouncilor _ => "claim_councilor" | OGate GPoll _ => "poll_create" | OGate GSubmit _ => "submit_proposal"
-   | OGate GVote _ => "vote_proposal" | OGate GDapp _ => "dapp_nobond"
+   | OGate GVote _ => "vote_proposal" | OGate GDapp _ => "dapp_nobond" | OGate (GOther _ _) _ => "probe"
    | OExportImport => "export_import" | ORotate _ _ => "rotate" end)%string.
 
 Section Run.
@@ -67,6 +67,8 @@ Definition state_matches (s : state) (o : obs) : bool :=
 Definition exec (s : state) (o : op) (ok : bool) : option state :=
   match o with
   | ORotate _ _ => if ok then Some (step_total c s o) else Some s
+  (* a probe whose message may be refused for other reasons: only an acceptance is compared *)
+  | OGate (GOther _ false) _ => if ok then (match step c s o with Ok s' => Some s' | _ => None end) else Some s
   | _ => match step c s o with
          | Ok s' => if ok then Some s' else None
          | _ => if ok then None else Some s end
@@ -174,6 +176,7 @@ Definition gate_spec (before : obs) (o : op) : bool :=
   | OGate GSubmit x => spec_holds before x PermCreateSetPoorNetworkMessagesProposal
   | OGate GVote x => spec_holds before x PermVoteSetPoorNetworkMessagesProposal
   | OGate GDapp x => spec_holds before x PermCreateDappProposalWithoutBond      (* waiver of the bond *)
+  | OGate (GOther p _) x => spec_holds before x p
   | ORemoveRole _ | OExportImport | ORotate _ _ => true
   end.
 
@@ -196,6 +199,54 @@ Definition rotate_disc (before after : obs) (a b : Z) : list string :=
   ++ (if fresh && existsb (fun p => negb (obs_allowed before a p) && obs_allowed after b p) uperms then ["rotate-new-address-gained-permissions"%string] else [])
   ++ (if has_actor before a && has_actor after a then ["rotate-old-actor-record-remains"%string] else []).
 
+(* ---- ghost record (the checker's own book-keeping): what each accepted operation is MEANT to do to
+   the records, written from the meaning of the message at set level; compared with the records the
+   code left behind.  A rejected operation must leave the records as they were. *)
+Definition sadd (x : Z) (l : list Z) : list Z := if mem x l then l else l ++ [x].
+Definition srem (x : Z) (l : list Z) : list Z := filter (fun y => negb (y =? x)) l.
+Fixpoint sset (l : list Z) : list Z := match l with [] => [] | x :: r => sadd x (sset r) end.
+Definition g_actor (o : obs) (a : Z) : actor := match lookup a (o_actors o) with Some x => x | None => default_actor end.
+Definition g_edit_actor (o : obs) (a : Z) (f : actor -> actor) : list (Z * actor) * list (Z * perms) :=
+  (upd a (f (g_actor o a)) (o_actors o), o_roles o).
+Definition g_edit_role (o : obs) (r : Z) (f : perms -> perms) : list (Z * actor) * list (Z * perms) :=
+  match lookup r (o_roles o) with Some rp => (o_actors o, upd r (f rp) (o_roles o)) | None => (o_actors o, o_roles o) end.
+Definition on_wl (f : list Z -> list Z) (x : actor) : actor := mkActor (a_roles x) (mkPerms (f (wl (a_perms x))) (bl (a_perms x))).
+Definition on_bl (f : list Z -> list Z) (x : actor) : actor := mkActor (a_roles x) (mkPerms (wl (a_perms x)) (f (bl (a_perms x)))).
+Definition on_roles (f : list Z -> list Z) (x : actor) : actor := mkActor (f (a_roles x)) (a_perms x).
+Definition expected_records (o : obs) (e : op) : option (list (Z * actor) * list (Z * perms)) :=
+  match e with
+  | OWlAcc _ a p => Some (g_edit_actor o a (on_wl (sadd p)))
+  | OBlAcc _ a p => Some (g_edit_actor o a (on_bl (sadd p)))
+  | ORmWlAcc _ a p => Some (g_edit_actor o a (on_wl (srem p)))
+  | ORmBlAcc _ a p => Some (g_edit_actor o a (on_bl (srem p)))
+  | OWlRole _ r p => Some (g_edit_role o r (fun rp => mkPerms (sadd p (wl rp)) (bl rp)))
+  | OBlRole _ r p => Some (g_edit_role o r (fun rp => mkPerms (wl rp) (sadd p (bl rp))))
+  | ORmWlRole _ r p => Some (g_edit_role o r (fun rp => mkPerms (srem p (wl rp)) (bl rp)))
+  | ORmBlRole _ r p => Some (g_edit_role o r (fun rp => mkPerms (wl rp) (srem p (bl rp))))
+  | OCreateRole _ _ w b => Some (o_actors o, upd (o_next o) (mkPerms (sset w) (sset b)) (o_roles o))
+  | ORemoveRole _ => None
+  | OAssign _ a r => Some (g_edit_actor o a (on_roles (sadd r)))
+  | OUnassign _ a r => Some (g_edit_actor o a (on_roles (srem r)))
+  | OClaimCouncilor a => Some (g_edit_actor o a (fun x => if mem PermCreatePollProposal (bl (a_perms x)) then x else on_wl (sadd PermCreatePollProposal) x))
+  | OGate _ _ | OExportImport => Some (o_actors o, o_roles o)
+  | ORotate a b =>
+      match lookup a (o_actors o), lookup b (o_actors o) with
+      | None, _ => Some (o_actors o, o_roles o)
+      | Some act, None => if a =? b then None else Some (upd b act (del a (o_actors o)), o_roles o)
+      | Some _, Some _ => None          (* a target with a record of its own: no expectation (known finding) *)
+      end
+  end.
+Definition perms_seteq (x y : perms) : bool := set_eqb (wl x) (wl y) && set_eqb (bl x) (bl y).
+Definition actor_seteq (x y : actor) : bool := set_eqb (a_roles x) (a_roles y) && perms_seteq (a_perms x) (a_perms y).
+Definition ghost_disc (before : obs) (e : op) (ok : bool) (now : obs) : list string :=
+  if ok then
+    match expected_records before e with
+    | None => []
+    | Some (ea, er) => if map_eqb actor_seteq ea (o_actors now) && map_eqb perms_seteq er (o_roles now) then [] else ["edit-effect"%string]
+    end
+  else if map_eqb actor_eqb (o_actors before) (o_actors now) && map_eqb perms_eqb (o_roles before) (o_roles now) then []
+       else ["rejected-operation-changed-records"%string].
+
 Definition with_op (o : op) (l : list string) : list string := map (fun k => (k ++ ":" ++ op_name o)%string) l.
 
 Definition state_clauses (who : string) (before : option obs) (now : obs) : list string :=
@@ -217,6 +268,7 @@ Definition state_clauses (who : string) (before : option obs) (now : obs) : list
 Definition step_clauses (before : obs) (o : op) (ok : bool) (now : obs) : list string :=
   state_clauses (op_name o) (Some before) now
   ++ (if ok && negb (gate_spec before o) then with_op o ["gate"%string] else [])
+  ++ with_op o (ghost_disc before o ok now)
   ++ match o with
      | OExportImport => if ok then with_op o (import_disc before now) else []
      | ORotate a b => if ok then with_op o (rotate_disc before now a b) else []
